@@ -1,5 +1,28 @@
 use rand::Rng;
 
+/// Verification hook (off unless built with `--cfg rdp_rs_verif`)
+/// A simulator can install a deterministic byte source
+/// for the current thread; when none is installed the
+/// operating system generator is used as usual
+#[cfg(rdp_rs_verif)]
+pub mod verif {
+    use std::cell::RefCell;
+
+    thread_local! {
+        static SOURCE: RefCell<Option<Box<dyn FnMut(usize) -> Vec<u8>>>> = RefCell::new(None);
+    }
+
+    /// Install (or remove with None) the byte source of the current thread
+    pub fn install(source: Option<Box<dyn FnMut(usize) -> Vec<u8>>>) {
+        SOURCE.with(|s| *s.borrow_mut() = source);
+    }
+
+    /// Draw from the installed source if any
+    pub fn draw(size: usize) -> Option<Vec<u8>> {
+        SOURCE.with(|s| s.borrow_mut().as_mut().map(|f| f(size)))
+    }
+}
+
 /// Generate a vector sized size fill with random value
 ///
 /// # Example
@@ -9,6 +32,12 @@ use rand::Rng;
 /// assert_eq!(vector.len(), 128);
 /// ```
 pub fn random(size: usize) -> Vec<u8> {
+    #[cfg(rdp_rs_verif)]
+    {
+        if let Some(forced) = verif::draw(size) {
+            return forced;
+        }
+    }
     let mut rng = rand::thread_rng();
     (0..size).map(|_| rng.gen()).collect()
 }
